@@ -203,6 +203,7 @@ Proof.
   - split; simpl; auto.
   - split; simpl; auto.
   - split; simpl; auto.
+  - split; simpl; auto.
   - destruct (nth_error (msgs s) m) as [x|]; [|split; auto].
     destruct (m_sender x) as [[n' i']|]; [destruct (Nat.eqb n n' && Nat.eqb i i')|]; split; simpl; auto.
 Qed.
@@ -341,6 +342,20 @@ Proof.
   split; auto. intros Hd. rewrite (H2 Hd). now rewrite map_map.
 Qed.
 
+(* ExportToMarkdown, SaveNetwork, Network.String and one ExportBus per bus, all at once, under any
+   schedule: the shared state is untouched and each finished worker holds its sequential result *)
+Lemma all_exports_sequential_l : forall s sch, Reach s ->
+  let ps := export_md_prog :: save_prog :: net_string_prog :: map export_bus_prog (net_buses s) in
+  fst (sched_run s ps sch) = s /\
+  (forallb is_done (snd (sched_run s ps sch)) = true ->
+   map result_of (snd (sched_run s ps sch)) =
+   eval s export_md_prog :: eval s save_prog :: eval s net_string_prog :: map (export_bus s) (net_buses s)).
+Proof.
+  intros s sch HR ps. subst ps.
+  destruct (sched_sequential_l s (export_md_prog :: save_prog :: net_string_prog :: map export_bus_prog (net_buses s)) sch HR) as [H1 H2].
+  split; auto. intros Hd. rewrite (H2 Hd). simpl. now rewrite map_map.
+Qed.
+
 (* copy-then-sort getters: the result is a permutation of the (untouched) stored contents *)
 Lemma ins_by_perm : forall {A} (key : A -> Z) x l, Permutation (ins_by key x l) (x :: l).
 Proof.
@@ -367,7 +382,8 @@ Definition ex_ops : list op :=
     Mut (MEnumAddValue 0 101 8 None);
     Mut (MNewType [8;0;0;255;1;0]); Mut (MNewUnit 86); Mut (MNewAttrDef [0;7]);
     Mut (MNewSig 0 0); Mut (MSigAssignAttr 1 0);
-    Mut (MNewMsg 5 1 8 100 [1;0]); Mut (MMsgSetSender 0 0 0); Mut (MMsgAssignAttr 0 0);
+    Mut (MNewSig 0 (-1)); Mut (MNewMux [[2]; []]);
+    Mut (MNewMsg 5 1 8 100 [1;0;3]); Mut (MMsgSetSender 0 0 0); Mut (MMsgAssignAttr 0 0);
     Mut (MMsgAddRecv 0 1 1); Mut (MBusAssignAttr 0 0); Mut (MNodeAssignAttr 0 0);
     Ro (RNodeGetAttr 1 99); Ro (REnumGetValue 0 555) ].
 
@@ -383,23 +399,38 @@ Lemma ex_addvalue_routed_l :
 Proof. vm_compute. reflexivity. Qed.
 
 (* the worker of bus 0 reads, besides the bus, its nodes and messages, the SHARED attribute
-   definition 0 (four times), type 0, unit 0 and the values of enum 0 *)
+   definition 0, type 0, unit 0, the values of enum 0 and, through the multiplexer signal 3, the
+   signal 2 of its first group *)
 Lemma ex_export_l : export_bus (run ex_ops) 0 =
-  [[500000; 1; 2; 3; 0]; [0]; [0; 7]; [10; 1; 0]; [0]; [0; 7]; [3; 1; 5; 1; 1; 2; 3]; [0]; [0; 7];
-   [1; 0]; [0]; [0; 7]; [1025]; [0; 0; -1]; [8; 0; 0; 255; 1; 0]; [86];
-   []; [1025]; [-1; -1; 0]; [100]; [11; 2; -1; 0]; []].
+  [[500000; 1; 2; 3; 0]; [0]; [0; 7]; [10; 1; 0]; [0]; [ 0; 7]; [3; 1; 5; 1; 1; 2; 3]; [0]; [
+   0; 7]; [ 1; 0; 3]; [0]; [0; 7]; [1025]; [0; 0; -1]; [ 8; 0; 0; 255; 1; 0]; [86]; []; []; [
+   1025]; [ -1; -1; 0]; [100]; []; []; [1025]; [-1; -1; -1]; [ 2; -1; -1]; []; [1025]; [
+   0; -1; -1]; [8; 0; 0; 255; 1; 0]; []; [11; 2; -1; 0]; []].
+Proof. vm_compute. reflexivity. Qed.
+
+(* ExportToMarkdown and SaveNetwork walk the whole network: what they read of the shared state *)
+Lemma ex_md_l : eval (run ex_ops) export_md_prog =
+  [[0]; [500000; 1; 2; 3; 0]; [10; 1; 0]; [3; 1; 5; 1; 1; 2; 3]; [1; 0; 3]; [1025]; [
+   0; 0; -1]; [8; 0; 0; 255; 1; 0]; [86]; []; [1025]; [-1; -1; 0]; [100]; []; [1025]; [
+   -1; -1; -1]; [ 2; -1; -1]; [1025]; [0; -1; -1]; [8; 0; 0; 255; 1; 0]; []; [11; 2; -1; 0]].
+Proof. vm_compute. reflexivity. Qed.
+
+Lemma ex_save_l : eval (run ex_ops) save_prog =
+  [[0]; [500000; 1; 2; 3; 0]; [0]; [0; 7]; [10; 1; 0]; [0]; [ 0; 7]; [5; 1; 8; 100]; [0]; [
+   0; 7]; [1; 0; 3]; [0]; [ 0; 7]; [1025]; [0; 0; -1]; [8; 0; 0; 255; 1; 0]; [86]; []; []; [
+   1025]; [-1; -1; 0]; [100]; []; []; [1025]; [ -1; -1; -1]; [2; -1; -1]; []; [1025]; [
+   0; -1; -1]; [8; 0; 0; 255; 1; 0]; []; [11; 2; -1; 0]; []].
 Proof. vm_compute. reflexivity. Qed.
 
 (* the model does contain the writes: outside the reachable states (hint left set) the very
    same read-only operations modify the shared state *)
-Lemma ro_writes_when_hint_set_l : exists s q, fst (ro s q) <> s.
+Lemma ro_writes_when_hint_set_l :
+  (exists s n a, fst (ro s (RNodeGetAttr n a)) <> s) /\
+  (exists s e v, fst (ro s (REnumGetValue e v)) <> s).
 Proof.
-  exists (mkState [mkNode 1 1 [None] 0 []] [] [] [] (mkShared [] [] [] [])), (RNodeGetAttr 0 5).
-  vm_compute. discriminate.
-Qed.
-
-Lemma ro_writes_when_enum_hint_set_l : exists s q, fst (ro s q) <> s.
-Proof.
-  exists (mkState [] [mkEnum [] 0 1 [mkRef 7 None false] (Some 7)] [] [] (mkShared [] [] [] [])), (REnumGetValue 0 5).
-  vm_compute. discriminate.
+  split.
+  - exists (mkState [mkNode 1 1 [None] 0 []] [] [] [] (mkShared [] [] [] [])), 0%nat, 5.
+    vm_compute. discriminate.
+  - exists (mkState [] [mkEnum [] 0 1 [mkRef 7 None false] (Some 7)] [] [] (mkShared [] [] [] [])), 0%nat, 5.
+    vm_compute. discriminate.
 Qed.
